@@ -3,112 +3,128 @@ import DarkluaModel.Shared.VisitorSound.Param
 # Fundamental theorem of the congruence closure `R`
 
 `R`-related syntax, run on `SRel`-related states with a call handler that respects the
-relations (`CallOK`), gives `RRel`-related results: `fund : R a b → Sound a b`.
+relations (`CallOK`), gives `RRel`-related results: `fund : R a b → Sound md a b`.
 One lemma per constructor of `R` (`SoundX.*`), then a one-line induction.
 -/
 namespace DarkluaModel.Sem
+variable {md : Bool}
 
-def SoundE (x y : Expr) : Prop :=
+def SoundE (md : Bool) (x y : Expr) : Prop :=
   ∀ (N : NumOps) (call : CallFn N) (ρ : ExtOracle N) (k : Nat) (env : Env N) (σ σ' : State N),
-    CallOK call → SRel σ σ' → RRel (evalE call ρ k env x σ) (evalE call ρ k env y σ')
-def SoundT (x y : Expr) : Prop :=
+    CallOK md call → SRel md σ σ' → RRel md (evalE call ρ k env x σ) (evalE call ρ k env y σ')
+def SoundT (md : Bool) (x y : Expr) : Prop :=
   ∀ (N : NumOps) (call : CallFn N) (ρ : ExtOracle N) (k : Nat) (env : Env N) (σ σ' : State N),
-    CallOK call → SRel σ σ' → RRel (evalTarget call ρ k env x σ) (evalTarget call ρ k env y σ')
-def SoundEs (x y : List Expr) : Prop :=
+    CallOK md call → SRel md σ σ' → RRel md (evalTarget call ρ k env x σ) (evalTarget call ρ k env y σ')
+def SoundEs (md : Bool) (x y : List Expr) : Prop :=
   ∀ (N : NumOps) (call : CallFn N) (ρ : ExtOracle N) (k : Nat) (env : Env N) (σ σ' : State N),
-    CallOK call → SRel σ σ' → RRel (evalEs call ρ k env x σ) (evalEs call ρ k env y σ')
-def SoundTs (x y : List Expr) : Prop :=
+    CallOK md call → SRel md σ σ' → RRel md (evalEs call ρ k env x σ) (evalEs call ρ k env y σ')
+def SoundTs (md : Bool) (x y : List Expr) : Prop :=
   ∀ (N : NumOps) (call : CallFn N) (ρ : ExtOracle N) (k : Nat) (env : Env N) (σ σ' : State N),
-    CallOK call → SRel σ σ' → RRel (evalTargets call ρ k env x σ) (evalTargets call ρ k env y σ')
-def SoundElifs (x y : List (Expr × Expr)) : Prop :=
+    CallOK md call → SRel md σ σ' → RRel md (evalTargets call ρ k env x σ) (evalTargets call ρ k env y σ')
+def SoundElifs (md : Bool) (x y : List (Expr × Expr)) : Prop :=
   ∀ (N : NumOps) (call : CallFn N) (ρ : ExtOracle N) (k : Nat) (env : Env N) (σ σ' : State N),
-    CallOK call → SRel σ σ' → RRel (evalElifs call ρ k env x σ) (evalElifs call ρ k env y σ')
-def SoundEntries (x y : List Entry) : Prop :=
+    CallOK md call → SRel md σ σ' → RRel md (evalElifs call ρ k env x σ) (evalElifs call ρ k env y σ')
+def SoundEntries (md : Bool) (x y : List Entry) : Prop :=
   ∀ (N : NumOps) (call : CallFn N) (ρ : ExtOracle N) (k : Nat) (env : Env N) (t i : Nat) (σ σ' : State N),
-    CallOK call → SRel σ σ' → RRel (evalEntries call ρ k env t i x σ) (evalEntries call ρ k env t i y σ')
-def SoundSegs (x y : List Seg) : Prop :=
+    CallOK md call → SRel md σ σ' → RRel md (evalEntries call ρ k env t i x σ) (evalEntries call ρ k env t i y σ')
+def SoundSegs (md : Bool) (x y : List Seg) : Prop :=
   ∀ (N : NumOps) (call : CallFn N) (ρ : ExtOracle N) (k : Nat) (env : Env N) (acc : List UInt8) (σ σ' : State N),
-    CallOK call → SRel σ σ' → RRel (evalSegs call ρ k env x acc σ) (evalSegs call ρ k env y acc σ')
-def SoundS (x y : Stmt) : Prop :=
+    CallOK md call → SRel md σ σ' → RRel md (evalSegs call ρ k env x acc σ) (evalSegs call ρ k env y acc σ')
+def SoundS (md : Bool) (x y : Stmt) : Prop :=
   ∀ (N : NumOps) (call : CallFn N) (ρ : ExtOracle N) (k : Nat) (env : Env N) (σ σ' : State N),
-    CallOK call → SRel σ σ' → RRel (execS call ρ k env x σ) (execS call ρ k env y σ')
-def SoundSs (x y : List Stmt) : Prop :=
+    CallOK md call → SRel md σ σ' → RRel md (execS call ρ k env x σ) (execS call ρ k env y σ')
+def SoundSs (md : Bool) (x y : List Stmt) : Prop :=
   ∀ (N : NumOps) (call : CallFn N) (ρ : ExtOracle N) (k : Nat) (env : Env N) (σ σ' : State N),
-    CallOK call → SRel σ σ' → RRel (execSs call ρ k env x σ) (execSs call ρ k env y σ')
-def SoundBranches (x y : List (Expr × Block)) : Prop :=
+    CallOK md call → SRel md σ σ' → RRel md (execSs call ρ k env x σ) (execSs call ρ k env y σ')
+def SoundBranches (md : Bool) (x y : List (Expr × Block)) : Prop :=
   ∀ (N : NumOps) (call : CallFn N) (ρ : ExtOracle N) (k : Nat) (env : Env N) (σ σ' : State N),
-    CallOK call → SRel σ σ' → RRel (execBranches call ρ k env x σ) (execBranches call ρ k env y σ')
-def SoundL (x y : Last) : Prop :=
+    CallOK md call → SRel md σ σ' → RRel md (execBranches call ρ k env x σ) (execBranches call ρ k env y σ')
+def SoundL (md : Bool) (x y : Last) : Prop :=
   ∀ (N : NumOps) (call : CallFn N) (ρ : ExtOracle N) (k : Nat) (env : Env N) (σ σ' : State N),
-    CallOK call → SRel σ σ' → RRel (execLast call ρ k env x σ) (execLast call ρ k env y σ')
-def SoundB (x y : Block) : Prop :=
+    CallOK md call → SRel md σ σ' → RRel md (execLast call ρ k env x σ) (execLast call ρ k env y σ')
+def SoundB (md : Bool) (x y : Block) : Prop :=
   ∀ (N : NumOps) (call : CallFn N) (ρ : ExtOracle N) (k : Nat) (env : Env N) (σ σ' : State N),
-    CallOK call → SRel σ σ' → RRel (execB call ρ k env x σ) (execB call ρ k env y σ')
+    CallOK md call → SRel md σ σ' → RRel md (execB call ρ k env x σ) (execB call ρ k env y σ')
 
-def Sound : Node → Node → Prop
-  | .e x, .e y => SoundE x y
-  | .t x, .t y => SoundT x y
-  | .es x, .es y => SoundEs x y
-  | .ts x, .ts y => SoundTs x y
-  | .elifs x, .elifs y => SoundElifs x y
-  | .entries x, .entries y => SoundEntries x y
-  | .segs x, .segs y => SoundSegs x y
-  | .s x, .s y => SoundS x y
-  | .ss x, .ss y => SoundSs x y
-  | .branches x, .branches y => SoundBranches x y
-  | .l x, .l y => SoundL x y
-  | .b x, .b y => SoundB x y
+def Sound (md : Bool) : Node → Node → Prop
+  | .e x, .e y => SoundE md x y
+  | .t x, .t y => SoundT md x y
+  | .es x, .es y => SoundEs md x y
+  | .ts x, .ts y => SoundTs md x y
+  | .elifs x, .elifs y => SoundElifs md x y
+  | .entries x, .entries y => SoundEntries md x y
+  | .segs x, .segs y => SoundSegs md x y
+  | .s x, .s y => SoundS md x y
+  | .ss x, .ss y => SoundSs md x y
+  | .branches x, .branches y => SoundBranches md x y
+  | .l x, .l y => SoundL md x y
+  | .b x, .b y => SoundB md x y
   | _, _ => True
 
 /-! ### steps and transitivity -/
 
-theorem SoundE.step {a m b} (h : EqE a m) (ih : SoundE m b) : SoundE a b := by
-  intro N call ρ k env σ σ' hc hs; rw [← h N call ρ k env σ]; exact ih N call ρ k env σ σ' hc hs
-theorem SoundT.step {a m b} (h : EqT a m) (ih : SoundT m b) : SoundT a b := by
-  intro N call ρ k env σ σ' hc hs; rw [← h N call ρ k env σ]; exact ih N call ρ k env σ σ' hc hs
-theorem SoundS.step {a m b} (h : EqS a m) (ih : SoundS m b) : SoundS a b := by
-  intro N call ρ k env σ σ' hc hs; rw [← h N call ρ k env σ]; exact ih N call ρ k env σ σ' hc hs
-theorem SoundL.step {a m b} (h : EqL a m) (ih : SoundL m b) : SoundL a b := by
-  intro N call ρ k env σ σ' hc hs; rw [← h N call ρ k env σ]; exact ih N call ρ k env σ σ' hc hs
-theorem SoundB.step {a m b} (h : EqB a m) (ih : SoundB m b) : SoundB a b := by
-  intro N call ρ k env σ σ' hc hs; rw [← h N call ρ k env σ]; exact ih N call ρ k env σ σ' hc hs
+theorem SoundE.step {a m b} (h : LeE md a m) (ih : SoundE md m b) : SoundE md a b := by
+  intro N call ρ k env σ σ' hc hs
+  cases h N call ρ k env σ with
+  | inl h => rw [h.2]; exact RRel.timeout_left h.1 _
+  | inr h => rw [← h]; exact ih N call ρ k env σ σ' hc hs
+theorem SoundT.step {a m b} (h : LeT md a m) (ih : SoundT md m b) : SoundT md a b := by
+  intro N call ρ k env σ σ' hc hs
+  cases h N call ρ k env σ with
+  | inl h => rw [h.2]; exact RRel.timeout_left h.1 _
+  | inr h => rw [← h]; exact ih N call ρ k env σ σ' hc hs
+theorem SoundS.step {a m b} (h : LeS md a m) (ih : SoundS md m b) : SoundS md a b := by
+  intro N call ρ k env σ σ' hc hs
+  cases h N call ρ k env σ with
+  | inl h => rw [h.2]; exact RRel.timeout_left h.1 _
+  | inr h => rw [← h]; exact ih N call ρ k env σ σ' hc hs
+theorem SoundL.step {a m b} (h : LeL md a m) (ih : SoundL md m b) : SoundL md a b := by
+  intro N call ρ k env σ σ' hc hs
+  cases h N call ρ k env σ with
+  | inl h => rw [h.2]; exact RRel.timeout_left h.1 _
+  | inr h => rw [← h]; exact ih N call ρ k env σ σ' hc hs
+theorem SoundB.step {a m b} (h : LeB md a m) (ih : SoundB md m b) : SoundB md a b := by
+  intro N call ρ k env σ σ' hc hs
+  cases h N call ρ k env σ with
+  | inl h => rw [h.2]; exact RRel.timeout_left h.1 _
+  | inr h => rw [← h]; exact ih N call ρ k env σ σ' hc hs
 
-theorem SoundE.trans {a b c} (h1 : SoundE a b) (h2 : SoundE b c) : SoundE a c :=
+theorem SoundE.trans {a b c} (h1 : SoundE md a b) (h2 : SoundE md b c) : SoundE md a c :=
   fun N call ρ k env σ σ' hc hs =>
     RRel.trans (h1 N call ρ k env σ σ' hc hs) (h2 N call ρ k env σ' σ' hc (SRel.refl σ'))
-theorem SoundT.trans {a b c} (h1 : SoundT a b) (h2 : SoundT b c) : SoundT a c :=
+theorem SoundT.trans {a b c} (h1 : SoundT md a b) (h2 : SoundT md b c) : SoundT md a c :=
   fun N call ρ k env σ σ' hc hs =>
     RRel.trans (h1 N call ρ k env σ σ' hc hs) (h2 N call ρ k env σ' σ' hc (SRel.refl σ'))
-theorem SoundS.trans {a b c} (h1 : SoundS a b) (h2 : SoundS b c) : SoundS a c :=
+theorem SoundS.trans {a b c} (h1 : SoundS md a b) (h2 : SoundS md b c) : SoundS md a c :=
   fun N call ρ k env σ σ' hc hs =>
     RRel.trans (h1 N call ρ k env σ σ' hc hs) (h2 N call ρ k env σ' σ' hc (SRel.refl σ'))
-theorem SoundL.trans {a b c} (h1 : SoundL a b) (h2 : SoundL b c) : SoundL a c :=
+theorem SoundL.trans {a b c} (h1 : SoundL md a b) (h2 : SoundL md b c) : SoundL md a c :=
   fun N call ρ k env σ σ' hc hs =>
     RRel.trans (h1 N call ρ k env σ σ' hc hs) (h2 N call ρ k env σ' σ' hc (SRel.refl σ'))
-theorem SoundB.trans {a b c} (h1 : SoundB a b) (h2 : SoundB b c) : SoundB a c :=
+theorem SoundB.trans {a b c} (h1 : SoundB md a b) (h2 : SoundB md b c) : SoundB md a c :=
   fun N call ρ k env σ σ' hc hs =>
     RRel.trans (h1 N call ρ k env σ σ' hc hs) (h2 N call ρ k env σ' σ' hc (SRel.refl σ'))
 
 /-! ### expressions -/
 
-theorem SoundE.leaf {x : Expr} (hl : x.isLeaf = true) : SoundE x x := by
+theorem SoundE.leaf {x : Expr} (hl : x.isLeaf = true) : SoundE md x x := by
   intro N call ρ k env σ σ' hc hs
   cases x <;> first | (simp [Expr.isLeaf] at hl; done) | simp only [evalE, hs.lookupVar]
   all_goals exact RRel.ok hs
 
-theorem SoundE.paren {x x'} (ih : SoundE x x') : SoundE (.paren x) (.paren x') := by
+theorem SoundE.paren {x x'} (ih : SoundE md x x') : SoundE md (.paren x) (.paren x') := by
   intro N call ρ k env σ σ' hc hs
   simp only [evalE]
   exact RRel.bind (ih N call ρ k env σ σ' hc hs) fun _ _ _ h => RRel.ok h
 
-theorem SoundE.un {op x x'} (ih : SoundE x x') : SoundE (.un op x) (.un op x') := by
+theorem SoundE.un {op x x'} (ih : SoundE md x x') : SoundE md (.un op x) (.un op x') := by
   intro N call ρ k env σ σ' hc hs
   simp only [evalE]
   exact RRel.bind (ih N call ρ k env σ σ' hc hs) fun _ _ _ h =>
     RRel.bind (unopVal_param hc _ _ _ h) fun _ _ _ h => RRel.ok h
 
-theorem SoundE.bin {op l l' r r'} (ihl : SoundE l l') (ihr : SoundE r r') :
-    SoundE (.bin op l r) (.bin op l' r') := by
+theorem SoundE.bin {op l l' r r'} (ihl : SoundE md l l') (ihr : SoundE md r r') :
+    SoundE md (.bin op l r) (.bin op l' r') := by
   intro N call ρ k env σ σ' hc hs
   cases op <;> simp only [evalE]
   case and =>
@@ -126,8 +142,8 @@ theorem SoundE.bin {op l l' r r'} (ihl : SoundE l l') (ihr : SoundE r r') :
       RRel.bind (ihr N call ρ k env _ _ hc h) fun _ _ _ h =>
         RRel.bind (binopVal_param hc _ _ _ _ h) fun _ _ _ h => RRel.ok h
 
-theorem SoundE.call {f f' m kd args args'} (ihf : SoundE f f') (iha : SoundEs args args') :
-    SoundE (.call f m kd args) (.call f' m kd args') := by
+theorem SoundE.call {f f' m kd args args'} (ihf : SoundE md f f') (iha : SoundEs md args args') :
+    SoundE md (.call f m kd args) (.call f' m kd args') := by
   intro N call ρ k env σ σ' hc hs
   cases m <;> simp only [evalE]
   · exact RRel.bind (ihf N call ρ k env σ σ' hc hs) fun _ _ _ h =>
@@ -136,35 +152,35 @@ theorem SoundE.call {f f' m kd args args'} (ihf : SoundE f f') (iha : SoundEs ar
       RRel.bind (indexVal_param hc _ _ _ h) fun _ _ _ h =>
         RRel.bind (iha N call ρ k env _ _ hc h) fun _ _ _ h => callVal_param hc _ _ _ h
 
-theorem SoundE.field {x x' n} (ih : SoundE x x') : SoundE (.field x n) (.field x' n) := by
+theorem SoundE.field {x x' n} (ih : SoundE md x x') : SoundE md (.field x n) (.field x' n) := by
   intro N call ρ k env σ σ' hc hs
   simp only [evalE]
   exact RRel.bind (ih N call ρ k env σ σ' hc hs) fun _ _ _ h =>
     RRel.bind (indexVal_param hc _ _ _ h) fun _ _ _ h => RRel.ok h
 
-theorem SoundE.index {x x' i i'} (ih : SoundE x x') (ihi : SoundE i i') : SoundE (.index x i) (.index x' i') := by
+theorem SoundE.index {x x' i i'} (ih : SoundE md x x') (ihi : SoundE md i i') : SoundE md (.index x i) (.index x' i') := by
   intro N call ρ k env σ σ' hc hs
   simp only [evalE]
   exact RRel.bind (ih N call ρ k env σ σ' hc hs) fun _ _ _ h =>
     RRel.bind (ihi N call ρ k env _ _ hc h) fun _ _ _ h =>
       RRel.bind (indexVal_param hc _ _ _ h) fun _ _ _ h => RRel.ok h
 
-theorem SoundE.fn {f f'} (hf : R (.f f) (.f f')) : SoundE (.fn f) (.fn f') := by
+theorem SoundE.fn {f f'} (hf : R md (.f f) (.f f')) : SoundE md (.fn f) (.fn f') := by
   intro N call ρ k env σ σ' hc hs
   simp only [evalE]
   have := hs.allocClosure (c := ⟨f, env.locals, []⟩) (c' := ⟨f', env.locals, []⟩) ⟨rfl, rfl, hf⟩
   rw [this.1]
   exact RRel.ok this.2
 
-theorem SoundE.table {es es'} (ih : SoundEntries es es') : SoundE (.table es) (.table es') := by
+theorem SoundE.table {es es'} (ih : SoundEntries md es es') : SoundE md (.table es) (.table es') := by
   intro N call ρ k env σ σ' hc hs
   simp only [evalE]
   have := hs.allocTable { entries := [], mt := none }
   rw [this.1]
   exact RRel.bind (ih N call ρ k env _ _ _ _ hc this.2) fun _ _ _ h => RRel.ok h
 
-theorem SoundE.ifx {c c' t t' el el' e e'} (ihc : SoundE c c') (iht : SoundE t t') (ihel : SoundElifs el el')
-    (ihe : SoundE e e') : SoundE (.ifx c t el e) (.ifx c' t' el' e') := by
+theorem SoundE.ifx {c c' t t' el el' e e'} (ihc : SoundE md c c') (iht : SoundE md t t') (ihel : SoundElifs md el el')
+    (ihe : SoundE md e e') : SoundE md (.ifx c t el e) (.ifx c' t' el' e') := by
   intro N call ρ k env σ σ' hc hs
   simp only [evalE]
   refine RRel.bind (ihc N call ρ k env σ σ' hc hs) fun _ _ _ h => ?_
@@ -175,28 +191,28 @@ theorem SoundE.ifx {c c' t t' el el' e e'} (ihc : SoundE c c') (iht : SoundE t t
     · exact RRel.bind (ihe N call ρ k env _ _ hc h) fun _ _ _ h => RRel.ok h
     · exact RRel.ok h
 
-theorem SoundE.interp {segs segs'} (ih : SoundSegs segs segs') : SoundE (.interp segs) (.interp segs') := by
+theorem SoundE.interp {segs segs'} (ih : SoundSegs md segs segs') : SoundE md (.interp segs) (.interp segs') := by
   intro N call ρ k env σ σ' hc hs
   simp only [evalE]
   exact RRel.bind (ih N call ρ k env _ σ σ' hc hs) fun _ _ _ h => RRel.ok h
 
-theorem SoundE.cast {x x' ty ty'} (ih : SoundE x x') : SoundE (.cast x ty) (.cast x' ty') := by
+theorem SoundE.cast {x x' ty ty'} (ih : SoundE md x x') : SoundE md (.cast x ty) (.cast x' ty') := by
   intro N call ρ k env σ σ' hc hs
   simp only [evalE]
   exact RRel.bind (ih N call ρ k env σ σ' hc hs) fun _ _ _ h => RRel.ok h
 
-theorem SoundE.inst {x x' ty ty'} (ih : SoundE x x') : SoundE (.inst x ty) (.inst x' ty') := by
+theorem SoundE.inst {x x' ty ty'} (ih : SoundE md x x') : SoundE md (.inst x ty) (.inst x' ty') := by
   intro N call ρ k env σ σ' hc hs
   simp only [evalE]
   exact RRel.bind (ih N call ρ k env σ σ' hc hs) fun _ _ _ h => RRel.ok h
 
 /-! ### lists -/
 
-theorem SoundEs.nil : SoundEs [] [] := by
+theorem SoundEs.nil : SoundEs md [] [] := by
   intro N call ρ k env σ σ' hc hs; simp only [evalEs]; exact RRel.ok hs
 
-theorem SoundEs.cons {x x' xs xs'} (hxs : R (.es xs) (.es xs')) (ihx : SoundE x x') (ihxs : SoundEs xs xs') :
-    SoundEs (x :: xs) (x' :: xs') := by
+theorem SoundEs.cons {x x' xs xs'} (hxs : R md (.es xs) (.es xs')) (ihx : SoundE md x x') (ihxs : SoundEs md xs xs') :
+    SoundEs md (x :: xs) (x' :: xs') := by
   intro N call ρ k env σ σ' hc hs
   cases hxs with
   | esNil => simp only [evalEs]; exact ihx N call ρ k env σ σ' hc hs
@@ -205,21 +221,21 @@ theorem SoundEs.cons {x x' xs xs'} (hxs : R (.es xs) (.es xs')) (ihx : SoundE x 
     exact RRel.bind (ihx N call ρ k env σ σ' hc hs) fun _ _ _ h =>
       RRel.bind (ihxs N call ρ k env _ _ hc h) fun _ _ _ h => RRel.ok h
 
-theorem SoundTs.nil : SoundTs [] [] := by
+theorem SoundTs.nil : SoundTs md [] [] := by
   intro N call ρ k env σ σ' hc hs; simp only [evalTargets]; exact RRel.ok hs
 
-theorem SoundTs.cons {x x' xs xs'} (ihx : SoundT x x') (ihxs : SoundTs xs xs') :
-    SoundTs (x :: xs) (x' :: xs') := by
+theorem SoundTs.cons {x x' xs xs'} (ihx : SoundT md x x') (ihxs : SoundTs md xs xs') :
+    SoundTs md (x :: xs) (x' :: xs') := by
   intro N call ρ k env σ σ' hc hs
   simp only [evalTargets]
   exact RRel.bind (ihx N call ρ k env σ σ' hc hs) fun _ _ _ h =>
     RRel.bind (ihxs N call ρ k env _ _ hc h) fun _ _ _ h => RRel.ok h
 
-theorem SoundElifs.nil : SoundElifs [] [] := by
+theorem SoundElifs.nil : SoundElifs md [] [] := by
   intro N call ρ k env σ σ' hc hs; simp only [evalElifs]; exact RRel.ok hs
 
-theorem SoundElifs.cons {c c' t t' xs xs'} (ihc : SoundE c c') (iht : SoundE t t') (ihxs : SoundElifs xs xs') :
-    SoundElifs ((c, t) :: xs) ((c', t') :: xs') := by
+theorem SoundElifs.cons {c c' t t' xs xs'} (ihc : SoundE md c c') (iht : SoundE md t t') (ihxs : SoundElifs md xs xs') :
+    SoundElifs md ((c, t) :: xs) ((c', t') :: xs') := by
   intro N call ρ k env σ σ' hc hs
   simp only [evalElifs]
   refine RRel.bind (ihc N call ρ k env σ σ' hc hs) fun _ _ _ h => ?_
@@ -227,11 +243,11 @@ theorem SoundElifs.cons {c c' t t' xs xs'} (ihc : SoundE c c') (iht : SoundE t t
   · exact RRel.bind (iht N call ρ k env _ _ hc h) fun _ _ _ h => RRel.ok h
   · exact ihxs N call ρ k env _ _ hc h
 
-theorem SoundEntries.nil : SoundEntries [] [] := by
+theorem SoundEntries.nil : SoundEntries md [] [] := by
   intro N call ρ k env t i σ σ' hc hs; simp only [evalEntries]; exact RRel.ok hs
 
-theorem SoundEntries.pos {v v' xs xs'} (hxs : R (.entries xs) (.entries xs')) (ihv : SoundE v v')
-    (ihxs : SoundEntries xs xs') : SoundEntries (.pos v :: xs) (.pos v' :: xs') := by
+theorem SoundEntries.pos {v v' xs xs'} (hxs : R md (.entries xs) (.entries xs')) (ihv : SoundE md v v')
+    (ihxs : SoundEntries md xs xs') : SoundEntries md (.pos v :: xs) (.pos v' :: xs') := by
   intro N call ρ k env t i σ σ' hc hs
   cases hxs with
   | entriesNil =>
@@ -242,15 +258,15 @@ theorem SoundEntries.pos {v v' xs xs'} (hxs : R (.entries xs) (.entries xs')) (i
     exact RRel.bind (ihv N call ρ k env σ σ' hc hs) fun _ _ _ h =>
       ihxs N call ρ k env _ _ _ _ hc (h.rawSet _ _ _)
 
-theorem SoundEntries.named {key v v' xs xs'} (ihv : SoundE v v') (ihxs : SoundEntries xs xs') :
-    SoundEntries (.named key v :: xs) (.named key v' :: xs') := by
+theorem SoundEntries.named {key v v' xs xs'} (ihv : SoundE md v v') (ihxs : SoundEntries md xs xs') :
+    SoundEntries md (.named key v :: xs) (.named key v' :: xs') := by
   intro N call ρ k env t i σ σ' hc hs
   simp only [evalEntries]
   exact RRel.bind (ihv N call ρ k env σ σ' hc hs) fun _ _ _ h =>
     ihxs N call ρ k env _ _ _ _ hc (h.rawSet _ _ _)
 
-theorem SoundEntries.keyed {ke ke' v v' xs xs'} (ihk : SoundE ke ke') (ihv : SoundE v v')
-    (ihxs : SoundEntries xs xs') : SoundEntries (.keyed ke v :: xs) (.keyed ke' v' :: xs') := by
+theorem SoundEntries.keyed {ke ke' v v' xs xs'} (ihk : SoundE md ke ke') (ihv : SoundE md v v')
+    (ihxs : SoundEntries md xs xs') : SoundEntries md (.keyed ke v :: xs) (.keyed ke' v' :: xs') := by
   intro N call ρ k env t i σ σ' hc hs
   simp only [evalEntries]
   refine RRel.bind (ihk N call ρ k env σ σ' hc hs) fun _ _ _ h =>
@@ -262,16 +278,16 @@ theorem SoundEntries.keyed {ke ke' v v' xs xs'} (ihk : SoundE ke ke') (ihv : Sou
     · exact ihxs N call ρ k env _ _ _ _ hc (h.rawSet _ _ _)
   · exact ihxs N call ρ k env _ _ _ _ hc (h.rawSet _ _ _)
 
-theorem SoundSegs.nil : SoundSegs [] [] := by
+theorem SoundSegs.nil : SoundSegs md [] [] := by
   intro N call ρ k env acc σ σ' hc hs; simp only [evalSegs]; exact RRel.ok hs
 
-theorem SoundSegs.s {b xs xs'} (ihxs : SoundSegs xs xs') : SoundSegs (.s b :: xs) (.s b :: xs') := by
+theorem SoundSegs.s {b xs xs'} (ihxs : SoundSegs md xs xs') : SoundSegs md (.s b :: xs) (.s b :: xs') := by
   intro N call ρ k env acc σ σ' hc hs
   simp only [evalSegs]
   exact ihxs N call ρ k env _ _ _ hc hs
 
-theorem SoundSegs.v {x x' xs xs'} (ihx : SoundE x x') (ihxs : SoundSegs xs xs') :
-    SoundSegs (.v x :: xs) (.v x' :: xs') := by
+theorem SoundSegs.v {x x' xs xs'} (ihx : SoundE md x x') (ihxs : SoundSegs md xs xs') :
+    SoundSegs md (.v x :: xs) (.v x' :: xs') := by
   intro N call ρ k env acc σ σ' hc hs
   simp only [evalSegs]
   exact RRel.bind (ihx N call ρ k env σ σ' hc hs) fun _ _ _ h =>
@@ -279,32 +295,32 @@ theorem SoundSegs.v {x x' xs xs'} (ihx : SoundE x x') (ihxs : SoundSegs xs xs') 
 
 /-! ### targets -/
 
-theorem SoundT.var {a} : SoundT (.var a) (.var a) := by
+theorem SoundT.var {a} : SoundT md (.var a) (.var a) := by
   intro N call ρ k env σ σ' hc hs; simp only [evalTarget]; exact RRel.ok hs
 
-theorem SoundT.field {x x' n} (ih : SoundE x x') : SoundT (.field x n) (.field x' n) := by
+theorem SoundT.field {x x' n} (ih : SoundE md x x') : SoundT md (.field x n) (.field x' n) := by
   intro N call ρ k env σ σ' hc hs
   simp only [evalTarget]
   exact RRel.bind (ih N call ρ k env σ σ' hc hs) fun _ _ _ h => RRel.ok h
 
-theorem SoundT.index {x x' i i'} (ih : SoundE x x') (ihi : SoundE i i') : SoundT (.index x i) (.index x' i') := by
+theorem SoundT.index {x x' i i'} (ih : SoundE md x x') (ihi : SoundE md i i') : SoundT md (.index x i) (.index x' i') := by
   intro N call ρ k env σ σ' hc hs
   simp only [evalTarget]
   exact RRel.bind (ih N call ρ k env σ σ' hc hs) fun _ _ _ h =>
     RRel.bind (ihi N call ρ k env _ _ hc h) fun _ _ _ h => RRel.ok h
 
-theorem SoundT.nonLv {x x' : Expr} (h : x.isLv = false) (h' : x'.isLv = false) : SoundT x x' := by
+theorem SoundT.nonLv {x x' : Expr} (h : x.isLv = false) (h' : x'.isLv = false) : SoundT md x x' := by
   intro N call ρ k env σ σ' hc hs
   rw [evalTarget_nonLv _ _ _ _ _ h, evalTarget_nonLv _ _ _ _ _ h']
   exact RRel.errS hs
 
 /-! ### blocks -/
 
-theorem SoundSs.nil : SoundSs [] [] := by
+theorem SoundSs.nil : SoundSs md [] [] := by
   intro N call ρ k env σ σ' hc hs; simp only [execSs]; exact RRel.ok hs
 
-theorem SoundSs.cons {x x' xs xs'} (ihx : SoundS x x') (ihxs : SoundSs xs xs') :
-    SoundSs (x :: xs) (x' :: xs') := by
+theorem SoundSs.cons {x x' xs xs'} (ihx : SoundS md x x') (ihxs : SoundSs md xs xs') :
+    SoundSs md (x :: xs) (x' :: xs') := by
   intro N call ρ k env σ σ' hc hs
   simp only [execSs]
   refine RRel.bind (ihx N call ρ k env σ σ' hc hs) fun c _ _ h => ?_
@@ -312,11 +328,11 @@ theorem SoundSs.cons {x x' xs xs'} (ihx : SoundS x x') (ihxs : SoundSs xs xs') :
   · exact ihxs N call ρ k _ _ _ hc h
   all_goals exact RRel.ok h
 
-theorem SoundBranches.nil : SoundBranches [] [] := by
+theorem SoundBranches.nil : SoundBranches md [] [] := by
   intro N call ρ k env σ σ' hc hs; simp only [execBranches]; exact RRel.ok hs
 
-theorem SoundBranches.cons {c c' b b' xs xs'} (ihc : SoundE c c') (ihb : SoundB b b')
-    (ihxs : SoundBranches xs xs') : SoundBranches ((c, b) :: xs) ((c', b') :: xs') := by
+theorem SoundBranches.cons {c c' b b' xs xs'} (ihc : SoundE md c c') (ihb : SoundB md b b')
+    (ihxs : SoundBranches md xs xs') : SoundBranches md ((c, b) :: xs) ((c', b') :: xs') := by
   intro N call ρ k env σ σ' hc hs
   simp only [execBranches]
   refine RRel.bind (ihc N call ρ k env σ σ' hc hs) fun _ _ _ h => ?_
@@ -325,25 +341,25 @@ theorem SoundBranches.cons {c c' b b' xs xs'} (ihc : SoundE c c') (ihb : SoundB 
     cases c <;> exact RRel.ok h
   · exact ihxs N call ρ k env _ _ hc h
 
-theorem SoundL.ret {es es'} (ih : SoundEs es es') : SoundL (.ret es) (.ret es') := by
+theorem SoundL.ret {es es'} (ih : SoundEs md es es') : SoundL md (.ret es) (.ret es') := by
   intro N call ρ k env σ σ' hc hs
   simp only [execLast]
   exact RRel.bind (ih N call ρ k env σ σ' hc hs) fun _ _ _ h => RRel.ok h
 
-theorem SoundL.brk : SoundL .brk .brk := by
+theorem SoundL.brk : SoundL md .brk .brk := by
   intro N call ρ k env σ σ' hc hs; simp only [execLast]; exact RRel.ok hs
 
-theorem SoundL.cont : SoundL .cont .cont := by
+theorem SoundL.cont : SoundL md .cont .cont := by
   intro N call ρ k env σ σ' hc hs; simp only [execLast]; exact RRel.ok hs
 
-theorem SoundB.none {ss ss'} (ih : SoundSs ss ss') : SoundB (.mk ss none) (.mk ss' none) := by
+theorem SoundB.none {ss ss'} (ih : SoundSs md ss ss') : SoundB md (.mk ss none) (.mk ss' none) := by
   intro N call ρ k env σ σ' hc hs
   simp only [execB]
   refine RRel.bind (ih N call ρ k env σ σ' hc hs) fun c _ _ h => ?_
   cases c <;> exact RRel.ok h
 
-theorem SoundB.some {ss ss' l l'} (ih : SoundSs ss ss') (ihl : SoundL l l') :
-    SoundB (.mk ss (some l)) (.mk ss' (some l')) := by
+theorem SoundB.some {ss ss' l l'} (ih : SoundSs md ss ss') (ihl : SoundL md l l') :
+    SoundB md (.mk ss (some l)) (.mk ss' (some l')) := by
   intro N call ρ k env σ σ' hc hs
   simp only [execB]
   refine RRel.bind (ih N call ρ k env σ σ' hc hs) fun c _ _ h => ?_
